@@ -16,7 +16,7 @@ META = dict(
          "harness sets the controls through the real entry points (MsgKillSwitch from the admin, MsgDepositESM + MsgExecuteESM + a block for the snapshot, "
          "inactive TWA records) on a fresh fixture and on seeded non-fresh states in which the same message succeeds with the controls off, executes the "
          "message / hook and records result, store digest and seizure / auction counts; TLC evaluates C14_Breaker, C14_Shutdown, C14_CoolOff, "
-         "C14_PriceMissing, C14_FailsClosed, C14_HookBreaker, C14_HookPriceMissing on every cell and Conf_Ctl / Conf_Hook (outcome = coded guard sequence).",
+         "C14_PriceMissing, C14_FailsClosed, C14_HookBreaker, C14_HookPriceMissing, C14_AuctionPriceMissing (record of a live Dutch auction unchanged by the per-block update / restart step when a needed price is off; both generations, vault and lend auctions) on every cell and Conf_Ctl / Conf_Hook (outcome = coded guard sequence).",
     note="Breaker expectations beyond the statement's wording (lend withdraw/close/repay/close-borrow) follow the anchors' guard list; locker withdraw/close and "
          "everything the statement does not constrain is observed only. 'after cool-off' is the state a transaction sees when the shutdown hook has not redeemed the vaults. "
          "V1 liquidation/auction begin-blockers are called directly (not wired in the app).",
@@ -29,12 +29,12 @@ def run(c):
     c.judge(dict(fails=[tuple(x) for x in res["fails"]]), logf)
     st = res["stats"]
     if not c.violations:   # a violation on real-code states stands on its own; vacuity only matters for a clean result
-        mx.need(st, ["ctlBreaker", "ctlShutdown", "ctlCoolOff", "ctlCoolWitness", "ctlPrice", "ctlRefOk", "ctlFreeOk", "hookBreaker", "hookPrice", "hookRefActs"])
-        mx.need_eq(st, [("ctlHandlersWitnessed", "ctlHandlers"), ("hooksWitnessed", "hooks")])
-    c.samples = mx.samples(logf, ("Ctl", "Hook"))
+        mx.need(st, ["ctlBreaker", "ctlShutdown", "ctlCoolOff", "ctlCoolWitness", "ctlPrice", "ctlRefOk", "ctlFreeOk", "hookBreaker", "hookPrice", "hookRefActs", "aucPrice", "aucRefMoved"])
+        mx.need_eq(st, [("ctlHandlersWitnessed", "ctlHandlers"), ("hooksWitnessed", "hooks"), ("aucStepsWitnessed", "aucSteps")])
+    c.samples = mx.samples(logf, ("Ctl", "Hook", "Auc"))
     return c.finish("model_checking", dict(
         states=res["mc"]["distinct"], transitions=res["mc"]["generated"], traces_validated_against_impl=st["nodes"],
-        must_reject_cells_executed=st["ctlBreaker"] + st["ctlShutdown"] + st["ctlCoolOff"] + st["ctlPrice"] + st["hookBreaker"] + st["hookPrice"],
+        must_reject_cells_executed=st["ctlBreaker"] + st["ctlShutdown"] + st["ctlCoolOff"] + st["ctlPrice"] + st["hookBreaker"] + st["hookPrice"] + st["aucPrice"],
         prepared_states=st["states"], antecedents=st, exhaustive=True, log_cached=cached,
         rule="every cell handler x (breaker, shutdown status, inactive-price subset) and hook x (breaker, shutdown status) is one execution on the real code "
              "per prepared state (fresh fixture + seeded random prefixes); a must-reject cell counts only when the same message / hook acts in the same "
